@@ -166,6 +166,9 @@ func readAll(c *core.Ctx, r io.Reader, rs int, retries int) readResult {
 			c.Violation("read-contract", "decoder.Read", "Read returned n=%d for a %d-byte buffer", k, n)
 		}
 		res.out = append(res.out, buf[:k]...)
+		for i := range buf {
+			buf[i] = 0xa5 // the caller's buffer is the caller's: it reuses it at once
+		}
 		if k == 0 && err == nil && n > 0 {
 			res.zeroNonEmpty++
 		}
@@ -231,8 +234,9 @@ func runClean(c *core.Ctx, s setup) {
 	c.Event("reader plan %v", plan)
 	c.Sig("m%d/c%v/s%v", plan.Mode, plan.CoalesceEOF, plan.Stalls > 0)
 	sr := c.NewReader("chan", stream, plan)
+	src, _ := c.WrapSource("chan", sr)
 	var dec io.Reader
-	if pi := c.Guard("mice.NewDecoder", func() { dec, err = s.enc.NewDecoder(sr, digest, 16384) }); pi != nil {
+	if pi := c.Guard("mice.NewDecoder", func() { dec, err = s.enc.NewDecoder(src, digest, 16384) }); pi != nil {
 		c.Violation("panic", pi.Site, "NewDecoder panicked: %s", pi.Value)
 	}
 	if err != nil {
